@@ -1688,6 +1688,17 @@ impl<T: Transport + 'static> SyncEngine<T> {
             errors: Vec::new(),
         };
 
+        // The filters apply to a single-file source exactly as they apply to an entry of a
+        // directory source: exclude rules against the file name, then the size bounds.
+        if let Some(name) = source.file_name() {
+            let size = source.metadata()?.len();
+            if self.should_exclude(Path::new(name), false) || self.should_filter_by_size(size) {
+                tracing::info!("Filtered out: {}", source.display());
+                stats.duration = start_time.elapsed();
+                return Ok(stats);
+            }
+        }
+
         // Check if destination exists
         let dest_exists = self.transport.exists(destination).await?;
 
